@@ -12,7 +12,7 @@ from . import C03, C05
 PROPERTY = "C08"
 LEVEL = "fault_enumeration"
 TIMEOUT = 600
-BUDGET = {"quick": 600, "thorough": 3000}
+BUDGET = {"quick": 600, "thorough": 3600}
 NSAMPLES = 3
 RULE = ("Fault enumeration over layout outcomes: generated programs (expression DAGs, memory cells and latches with "
         "their explicit module wires, fan-out 2-40, user entities up to 60 tiles apart and at negative "
